@@ -44,6 +44,14 @@ CORPORA = {
     "schema_errors": dict(gen="MCStream.tla", cfg={"quick": "stream_errors_quick.cfg", "thorough": "stream_errors_thorough.cfg"},
                    family="stream", trace="StreamTrace.tla", tracecfg="StreamTrace.cfg",
                    variants=["noresolver", "reparsed", "dynext", "global", "shadowed"]),
+    # C20, last clause: the same scenarios against vanguardgrpc.NewTranscoder(server) and against the service registered
+    # by name, with a real grpc.Server as the backend; env selects whether a gRPC codec "json" is registered
+    "grpcwrap": dict(gen="MCStream.tla", cfg={"quick": "grpcwrap_matrix.cfg", "thorough": "grpcwrap_matrix.cfg"},
+                     family="grpcwrap", trace="GrpcWrapTrace.tla", tracecfg="GrpcWrapTrace.cfg"),
+    "grpcwrap_errors": dict(gen="MCStream.tla", cfg={"quick": "grpcwrap_errors.cfg", "thorough": "grpcwrap_errors.cfg"},
+                            family="grpcwrap", trace="GrpcWrapTrace.tla", tracecfg="GrpcWrapTrace.cfg"),
+    "grpcwrap_json": dict(gen="MCStream.tla", cfg={"quick": "grpcwrap_matrix_json.cfg", "thorough": "grpcwrap_matrix_json.cfg"},
+                          family="grpcwrap", trace="GrpcWrapTrace.tla", tracecfg="GrpcWrapTrace.cfg", harness_env={"VERIF_GRPC_JSON": "1"}),
     "stream_headers": dict(gen="MCStream.tla", cfg={"quick": "stream_headers_quick.cfg", "thorough": "stream_headers_thorough.cfg"},
                            family="stream", trace="StreamTrace.tla", tracecfg="StreamTrace.cfg"),
 }
@@ -68,7 +76,7 @@ PROPS = {
                 whatif=[("MCFraming.tla", "framing_R2_asbuilt.cfg"), ("MCFramingW.tla", "framingw_W1_reframe_rightcopy.cfg")]),
     "C09": dict(corpora=["stream_faults"], prefix="C09."),
     "C10": dict(corpora=["limits"], prefix="C10."),
-    "C20": dict(corpora=["schema"], corpora_thorough=["schema", "schema_errors"], prefix="C20."),
+    "C20": dict(corpora=["schema", "grpcwrap", "grpcwrap_json"], corpora_thorough=["schema", "schema_errors", "grpcwrap", "grpcwrap_errors", "grpcwrap_json"], prefix="C20."),
     "C11": dict(corpora=["stream_hostile", "stream_faults", "stream_errors", "stream_reject"], prefix="C11."),
     "C12": dict(corpora=["timeout"], prefix="C12.",
                 # unbounded arithmetic of the gRPC / Connect timeout encoders (SMT): the code's comparisons must be
@@ -186,7 +194,7 @@ def run_corpus(name, tier, seed, work, binary):
                         out.write(json.dumps(o, separators=(",", ":")) + "\n")
         del ref
     else:
-        vlib.run_harness(binary, c["family"], scn_file, trace_file, seed, workers=c.get("harness_workers"), timeout=7200)
+        vlib.run_harness(binary, c["family"], scn_file, trace_file, seed, workers=c.get("harness_workers"), timeout=7200, env=c.get("harness_env"))
     log("[%s] E3 done in %.1fs; E4: trace validation" % (name, time.time() - t1))
     t2 = time.time()
     ntrace = sum(1 for _ in open(trace_file))
